@@ -16,7 +16,7 @@ serving = {}
 for fn in sorted(os.listdir(prove.CONTRACT_DIR)):
     if fn.endswith('.spec'):
         sp = prove.parse_spec(os.path.join(prove.CONTRACT_DIR, fn))
-        if sp['harness']:
+        if sp['harness'] and sp.get('status', 'active') == 'active':
             for p in sp['serves']:
                 serving.setdefault(p, []).append(sp['unit'])
 
